@@ -69,16 +69,33 @@ pure cidOfEACL(e Bytes) Bytes = e[off(e) : off(e) + 32]
 
 // registry invariants for 32-byte ids (R1: a live container is indexed under its owner; R3: a deleted id has no trace)
 pred R1(s Store) = forall id Bytes {s.opt(xk(id))} :: len(id) == 32 && live(s, id)
-        ==> s.has(ok_(ownerOfBlob(blob(s, id)), id)) && s.get(ok_(ownerOfBlob(blob(s, id)), id)) == id
+        ==> len(ownerOfBlob(blob(s, id))) == 25 && s.has(ok_(ownerOfBlob(blob(s, id)), id)) && s.get(ok_(ownerOfBlob(blob(s, id)), id)) == id
 pred R3(s Store) = forall id Bytes {s.opt(dk(id))} :: len(id) == 32 && s.has(dk(id))
         ==> !s.has(xk(id)) && !s.has(mk_(id)) && !s.has(ek(id))
 
+// The registry invariants, for every history (32-byte ids, 25-byte owners):
+// R0 a live container is stored under the SHA-256 of its blob; R1 it is indexed under the owner found in the blob;
+// R2 every entry of the owner index names a live container of that owner; R3 a deleted id has no trace (and stays deleted:
+// no method removes a tombstone). With R1 and R2, list/containersOf(owner) - the values under o<owner> - are precisely the live
+// ids of that owner, and count - the number of x-keys - is the number of live containers.
+// A5: SHA-256 is treated as injective on container blobs (collision freedom): two blobs with one id are the same blob
+axiom sha256Len: forall a Bytes {sha256(a)} :: len(sha256(a)) == 32
+axiom sha256Inj: forall a Bytes, b Bytes {sha256(a), sha256(b)} :: sha256(a) == sha256(b) ==> a == b
+pred R0(s Store) = forall id Bytes {s.opt(xk(id))} :: len(id) == 32 && live(s, id) ==> sha256(blob(s, id)) == id
+pred R2(s Store) = forall o Bytes, id Bytes {s.opt(ok_(o, id))} :: len(o) == 25 && len(id) == 32 && s.has(ok_(o, id))
+        ==> live(s, id) && o == ownerOfBlob(blob(s, id)) && s.get(ok_(o, id)) == id
+pred Rx(s Store) = forall k Bytes {s.opt(k)} :: prefix("x", k) && s.has(k) ==> len(k) == 33
+invariant InvRx [C04] = Rx(store)
+invariant InvR0 [C04] = R0(store)
+invariant InvR1 [C04] = R1(store)
+invariant InvR2 [C04] = R2(store)
+invariant InvR3 [C04] = R3(store)
 // a stored alias is never the empty string (it always contains the dot between name and zone)
 invariant InvAlias [C04] = forall id Bytes {store.opt(ak(id))} :: store.has(ak(id)) ==> len(store.get(ak(id))) != 0
 
 func ownerFromBinaryContainer(container) (r)
   pure
-  ensures !isnil(r) && r == ownerOfBlob(container)
+  ensures !isnil(r) && r == ownerOfBlob(container) && len(r) == 25
 
 func getContainer(ctx, cid) (r)
   pure
@@ -124,6 +141,7 @@ func PutNamed(container, signature, publicKey, token, name, zone)
   ensures [C04] store.has(xk(sha256(container)))
         && deser_Container(store.get(xk(sha256(container)))) == Container{container, signature, publicKey, token}
   ensures [C04] store.has(ok_(ownerOfBlob(container), sha256(container))) && store.get(ok_(ownerOfBlob(container), sha256(container))) == sha256(container)
+  ensures [C04] len(ownerOfBlob(container)) == 25
   ensures [C04] name != "" && old(store).has("nnsRoot") ==> store.has(ak(sha256(container)))
         && store.get(ak(sha256(container))) == name ++ "." ++ (zone == "" ? old(store).get("nnsRoot") : zone)
   ensures [C04] forall k Bytes {store.opt(k)} :: k != xk(sha256(container)) && k != ok_(ownerOfBlob(container), sha256(container))
@@ -136,12 +154,16 @@ func Put(container, signature, publicKey, token)
   ensures [C04] !old(store).has(dk(sha256(container)))
   ensures [C04] store.has(xk(sha256(container)))
         && deser_Container(store.get(xk(sha256(container)))) == Container{container, signature, publicKey, token}
+  ensures [C04] store.has(ok_(ownerOfBlob(container), sha256(container))) && store.get(ok_(ownerOfBlob(container), sha256(container))) == sha256(container)
+        && len(ownerOfBlob(container)) == 25
   ensures [C04] forall k Bytes {store.opt(k)} :: k != xk(sha256(container)) && k != ok_(ownerOfBlob(container), sha256(container)) ==> store.opt(k) == old(store).opt(k)
   ensures [C04] notifs == old(notifs) ++ [PutSuccess(sha256(container), publicKey)]
 
 func PutMeta(container, signature, publicKey, token, metaOnChain)
   ensures [C04] !old(store).has(dk(sha256(container)))
   ensures [C04] store.has(xk(sha256(container)))
+        && deser_Container(store.get(xk(sha256(container)))) == Container{container, signature, publicKey, token}
+  ensures [C04] store.has(ok_(ownerOfBlob(container), sha256(container))) && store.get(ok_(ownerOfBlob(container), sha256(container))) == sha256(container)
   ensures [C04] metaOnChain ==> store.has(mk_(sha256(container)))
   ensures [C04] forall k Bytes {store.opt(k)} :: k != xk(sha256(container)) && k != ok_(ownerOfBlob(container), sha256(container))
         && !(metaOnChain && k == mk_(sha256(container))) ==> store.opt(k) == old(store).opt(k)
